@@ -34,7 +34,44 @@ pub fn scenarios(tier: &str) -> Vec<Scenario> {
     // restarts are real close + open of 28 RocksDB instances (75 ms and more under load), so they
     // get their own, shallower scenario in the quick tier
     let alpha_ck: Vec<Macro> = alpha.iter().filter(|m| m.kind != Kind::Dev(2)).cloned().collect();
+    // "... or the result of any later call": the later call that depends most on what a commit, a clearCaches
+    // or a restart left behind is a reorg at the edge of the window (histories pruned at commit, the
+    // highest-block mark kept across clearCaches and restarts)
+    let edge = vec![
+        m_block("B(set0=1)", vec![s_set(0, 0, 1)]),
+        m_block("B(set0=2)", vec![s_set(0, 0, 2)]),
+        m_mine(1),
+        m_mine(W - 1),
+        m_commit(0),
+        mac("K", Kind::Dev(1), vec![Step::Clear]),
+        mac("X", Kind::Dev(2), vec![Step::Restart]),
+        m_reorg(3, RTarget::Back(1)),
+        m_reorg(3, RTarget::Back(W - 1)),
+        m_reorg(3, RTarget::Back(W)),
+        m_reorg(3, RTarget::Back(W + 1)),
+    ];
+    let edge_no_restart: Vec<Macro> = edge.iter().filter(|m| m.kind != Kind::Dev(2)).cloned().collect();
     vec![
+        Scenario {
+            name: "window-edge-after-commit-clear-restart".into(),
+            opts: Opts::new("C03", "edge"),
+            starts: vec![("committed at W+2, one uncommitted block".into(), deep.clone())],
+            alphabet: edge,
+            bounds: Bounds { depth: if thorough { 4 } else { 3 }, dev: vec![1, 1, 1, 1], dev_total: if thorough { 4 } else { 3 } },
+            weight: 2.0,
+            network: "regtest".into(),
+            traces: true,
+        },
+        Scenario {
+            name: "window-edge-after-commit-clear".into(),
+            opts: Opts::new("C03", "edge"),
+            starts: vec![("S deployed in block 1, nothing committed".into(), base.clone())],
+            alphabet: edge_no_restart,
+            bounds: Bounds { depth: if thorough { 5 } else { 4 }, dev: vec![2, 1, 0, 1], dev_total: 3 },
+            weight: 2.0,
+            network: "regtest".into(),
+            traces: true,
+        },
         Scenario {
             name: "commit-clear-restart-deep".into(),
             opts: Opts::new("C03", "ckx"),
